@@ -13,15 +13,15 @@ RULE = ("every clean annotated network = every edge-disjoint placement of the to
         "get_ejks() calls (thorough: all interleavings of length <= 4 with a second extractor over another network); "
         "every returned matrix is compared with the edge-end count computed from scratch; non-trivial = network "
         "with >= 2 distinct excess tuples in some topology")
-BOUNDS = {"quick": "c2, c3, c2+c3 on N<=5; blue+red, blue+c3+red, c2+cyc4 on N<=4; histories of length <= 3",
+BOUNDS = {"quick": "c2, c2+c3 on N<=5 (all), c3 / c2+c3 on N=6 with <= 4 motifs, blue+red N<=4, blue+c3+red N<=5 (<= 4 motifs), c2+cyc4 N<=5 (<= 4 motifs); histories of length <= 3",
           "thorough": "c2+c3 on N<=6 with <= 6 motifs; 3-topology sets on N<=5 with <= 5 motifs; interleavings"}
 ASSUMPTIONS = ["clean networks only (no self-loop, no repeated pair), so annotations equal real motif degrees",
                "float tolerance 1e-12"]
 TOL = 1e-12
 
 PLAN = {
-    "quick": [("c2", 5, None), ("c3", 5, None), ("c2+c3", 5, None), ("blue+red", 4, None),
-              ("blue+c3+red", 4, None), ("c2+cyc4", 4, None)],
+    "quick": [("c2", 5, None), ("c3", 6, 4), ("c2+c3", 5, None), ("c2+c3", 6, 4), ("blue+red", 4, None),
+              ("blue+c3+red", 4, None), ("blue+c3+red", 5, 4), ("c2+cyc4", 5, 4), ("c3+c2", 5, 5)],
     "thorough": [("c2", 5, None), ("c3", 6, None), ("c2+c3", 5, None), ("c2+c3", 6, 6), ("blue+red", 4, None),
                  ("blue+c3+red", 5, 5), ("c2+cyc4", 5, 5), ("c3+c2", 5, None)],
 }
